@@ -1945,8 +1945,8 @@ def _get_slice_Global_Nonlocal_names(
                 bound_ln = ln
                 bound_col = col
 
-        ret_elts.append(Name(id=src, ctx=Load(), lineno=lineno, col_offset=(l := lines[ln]).c2b(col), end_lineno=lineno,
-                             end_col_offset=l.c2b(end_col)))
+        ret_elts.append(Name(id=ast.names[start + i], ctx=Load(), lineno=lineno, col_offset=(l := lines[ln]).c2b(col),  # id from the tree, the source may be an unnormalized (NFKC) spelling of it
+                             end_lineno=lineno, end_col_offset=l.c2b(end_col)))
 
     loc_last = fstloc(ln, col, ln, end_col)
 
